@@ -60,7 +60,18 @@ end
 return e
 '''
 
-PER = {"quick": 1100, "thorough": 14000}
+import os
+
+# spelling of the call around the argument list: (template open, close, invoke open, close, text before, text after)
+STYLES = [("{{t|", "}}", "{{#invoke:echo|f|", "}}", "", ""),
+          ("{{t\n|", "}}", "{{#invoke:echo|f\n|", "}}", "", ""),
+          ("{{ t |", "}}", "{{#invoke: echo | f |", "}}", "", ""),
+          ("{{t|", "}}", "{{#invoke:echo|f|", "}}", "x ", " y")]
+STYLE_NAME = ["plain", "name-then-newline", "padded-name", "text-around-call"]
+
+PER = {"quick": 1100, "thorough": 14000}      # random lists per shard
+if os.environ.get("VERIF_C14_N"):               # development knob: smaller / larger random part (floors follow)
+    PER = {k: int(os.environ["VERIF_C14_N"]) for k in PER}
 EXH_LEN = {"quick": 2, "thorough": 3}
 
 
@@ -154,18 +165,22 @@ class Monitor:
         self.cm.__exit__(None, None, None)
 
     # each view returns ("ok", canon) | ("raises", "ExcType", detail) | ("shape", tag, detail) | ("budget", ...)
-    def view(self, which, args):
+    def view(self, which, args, style=0):
         self.calls[which] += 1
         body = "|".join(args)
+        topen, tclose, iopen, iclose, pre, post = STYLES[style]
         ctx = self.ctx
         ctx.start_page("Pg")
         try:
             with cpu_guard(20):
                 if which == "parser":
-                    root = ctx.parse("{{t|" + body + "}}")
-                    ch = root.children
-                    if len(ch) != 1 or not isinstance(ch[0], self.TemplateNode):
+                    root = ctx.parse(pre + topen + body + tclose + post)
+                    ch = [c for c in root.children if not isinstance(c, str)]
+                    txt = "".join(c for c in root.children if isinstance(c, str))
+                    if len(ch) != 1 or not isinstance(ch[0], self.TemplateNode) or txt != pre + post:
                         return ("shape", "not-one-template-node", str(root)[:200])
+                    if ch[0].template_name != "t":
+                        return ("shape", "template-name", repr(ch[0].template_name)[:100])
                     return ("ok", R.canon(ch[0].template_parameters))
                 if which == "expander":
                     got = []
@@ -173,16 +188,20 @@ class Monitor:
                     def rec(name, ht):
                         got.append((name, dict(ht)))
                         return ""
-                    out = ctx.expand("{{t|" + body + "}}", template_fn=rec)
+                    out = ctx.expand(pre + topen + body + tclose + post, template_fn=rec)
                     self.obs.count("template_fn.calls", len(got))
                     if len(got) != 1:
                         return ("shape", "template_fn-called-%s-times" % ("0" if not got else "n"), out[:200])
                     if got[0][0] != "t":
                         return ("shape", "template_fn-other-name", repr(got[0][0])[:100])
+                    if out != pre + post:
+                        return ("shape", "text-around-call-changed", out[:200])
                     return ("ok", R.canon(got[0][1]))
-                out = ctx.expand("{{#invoke:echo|f|" + body + "}}")
+                out = ctx.expand(pre + iopen + body + iclose + post)
                 try:
-                    d = decode_echo(out)
+                    if not (out.startswith(pre) and out.endswith(post)):
+                        raise ValueError("frame")
+                    d = decode_echo(out[len(pre):len(out) - len(post)])
                 except Exception:
                     return ("shape", "lua-error-text" if "error" in out.lower() else "echo-undecodable", out[:300])
                 self.obs.count("lua.echo-decoded")
@@ -413,38 +432,45 @@ def _lit(res):
     return R.show(res[1]) if res[0] == "ok" else res[0]
 
 
-def signature(mon, view, kind, args):
+def signature(mon, view, kind, args, style=0):
     """Minimise the deviation (view, kind) of args, then describe the minimal witness: the signature is a function
-    of the witness alone (all three views are evaluated on it). Returns (sig, witness, {view: result})."""
+    of the witness alone (all three views are evaluated on it). Returns (sig, witness, style, {view: result})."""
     def pred(c):
-        return mon.judge(mon.view(view, c), c) == kind
+        return mon.judge(mon.view(view, c, style), c) == kind
     m, tags, canonical = minimise(args, pred)
-    res = {v: mon.view(v, m) for v in VIEWS}
-    dev = {v: mon.judge(res[v], m) for v in VIEWS}
-    if dev[view] != kind:            # budget ran out in the middle of a step: fall back to the input
+    if mon.judge(mon.view(view, m, style), m) != kind:   # budget ran out in the middle of a step: fall back to the input
         m, tags, canonical = list(args), ["unminimised"], False
-        res = {v: mon.view(v, m) for v in VIEWS}
-        dev = {v: mon.judge(res[v], m) for v in VIEWS}
+    if style and mon.judge(mon.view(view, m, 0), m) == kind:
+        style = 0                                        # the spelling of the call does not matter
+    res = {v: mon.view(v, m, style) for v in VIEWS}
+    dev = {v: mon.judge(res[v], m) for v in VIEWS}
     dv = [v for v in VIEWS if dev[v] is not None]
     if len({dev[v] for v in dv}) == 1:
         head = "+".join(dv) + ":" + dev[dv[0]]
     else:
         head = "+".join("%s:%s" % (v, dev[v]) for v in dv)
     sig = head + "/[" + ",".join(tags) + "]"
+    if style:
+        sig += "@call-" + STYLE_NAME[style]
     if canonical:
         lits = []
         for v in dv:
             if _lit(res[v]) not in lits:
                 lits.append(_lit(res[v]))
         sig += "/" + esc("|".join(m)) + "=>" + esc(" / ".join(lits))
-    return sig, m, {v: res[v] for v in dv}
+    return sig, m, style, {v: res[v] for v in dv}
 
 
 # ------------------------------------------------------------------------------------------------ one case
 
-def run_case(mon, obs, args, gen, record=True):
+def call_text(args, style):
+    topen, tclose, _io, _ic, pre, post = STYLES[style]
+    return esc(pre + topen + "|".join(args) + tclose + post)
+
+
+def run_case(mon, obs, args, gen, style=0, record=True):
     """Evaluate one argument list. Returns list of (sig, msg, case)."""
-    res = {v: mon.view(v, args) for v in VIEWS}
+    res = {v: mon.view(v, args, style) for v in VIEWS}
     dev = {}
     for v in VIEWS:
         obs.check("rule-vs-" + v)
@@ -464,9 +490,10 @@ def run_case(mon, obs, args, gen, record=True):
                 odd.append(v)
     if record:
         f = R.features(args)
-        obs.case("|".join(args), nontrivial=bool(f - {"kind.pos", "kind.named", "kind.num"}),
-                 sample={"gen": gen, "args": args, "parser_view": _lit(res["parser"])})
+        obs.case("|".join(args) + "#%d" % style, nontrivial=bool(f - {"kind.pos", "kind.named", "kind.num"}),
+                 sample={"gen": gen, "call": STYLE_NAME[style], "args": args, "parser_view": _lit(res["parser"])})
         obs.count("gen." + gen)
+        obs.count("call-style." + STYLE_NAME[style])
         obs.count("len.%d" % len(args))
         obs.maxi("max_len", len(args))
         for t in f:
@@ -483,21 +510,18 @@ def run_case(mon, obs, args, gen, record=True):
     for v in odd:
         cls = sorted({x.split(".")[-1] for x in R.features(args)} & {"nbsp", "uws", "udigit", "uspace", "cr", "ff", "vt"})
         sig = "%s:reading-of-non-ascii-blank-or-digit-differs-from-other-views/[%s]" % (v, ",".join(cls))
-        msg = "{{t|%s}}: %s" % (esc("|".join(args)), "; ".join("%s view: %s" % (w, esc(_lit(res[w]))) for w in VIEWS))
-        out.append((sig, msg, {"args": args, "gen": gen}))
+        msg = "%s: %s" % (call_text(args, style), "; ".join("%s view: %s" % (w, esc(_lit(res[w]))) for w in VIEWS))
+        out.append((sig, msg, {"args": args, "style": style}))
     seen = set()
     for v, kind in dev.items():
-        sig, m, rs = signature(mon, v, kind, args)
+        sig, m, st, rs = signature(mon, v, kind, args, style)
         if sig in seen:
             continue
         seen.add(sig)
         exp = R.show(R.canon(R.rule(m, "A")))
-        msg = "{{t|%s}}: rule says %s; " % (esc("|".join(m)), esc(exp)) + "; ".join(
+        msg = "%s: rule says %s; " % (call_text(m, st), esc(exp)) + "; ".join(
             "%s view: %s" % (w, esc(R.show(r[1])) if r[0] == "ok" else r[1:]) for w, r in rs.items())
-        case = {"args": m, "gen": gen}
-        if m != list(args):
-            case["minimised_from"] = list(args)
-        out.append((sig, msg, case))
+        out.append((sig, msg, {"args": m, "style": st}))
     return out
 
 
@@ -508,8 +532,8 @@ def run_shard(spec):
     mon = Monitor(obs)
     idx, nsh = spec["idx"], spec["nsh"]
 
-    def do(args, gen):
-        for sig, msg, case in run_case(mon, obs, args, gen):
+    def do(args, gen, style=0):
+        for sig, msg, case in run_case(mon, obs, args, gen, style):
             obs.violation(sig, msg, case)
 
     for i, lst in enumerate(G.exhaustive_lists(EXH_LEN[spec["tier"]])):
@@ -519,7 +543,7 @@ def run_shard(spec):
         if i % nsh == idx:
             do(lst, "E2")
     for _ in range(spec["n"]):
-        do(G.random_list(rng), "R")
+        do(G.random_list(rng), "R", rng.choice((0, 0, 0, 0, 0, 0, 1, 1, 2, 3)))
     mon.close()
     obs.anchors.update(anchors.snapshot())
     for v in VIEWS:
@@ -531,9 +555,10 @@ def replay(case):
     obs = Obs()
     mon = Monitor(obs)
     args = case["args"]
-    found = run_case(mon, obs, args, case.get("gen", "replay"), record=False)
-    views = {v: mon.view(v, args) for v in VIEWS}
+    style = case.get("style", 0)
+    found = run_case(mon, obs, args, "replay", style, record=False)
+    views = {v: mon.view(v, args, style) for v in VIEWS}
     mon.close()
-    return {"violations": [(s, m) for s, m, _c in found],
+    return {"violations": [(s, m) for s, m, _c in found], "call": call_text(args, style),
             "rule": R.show(R.canon(R.rule(args, "A"))),
             "views": {v: (R.show(r[1]) if r[0] == "ok" else list(r)) for v, r in views.items()}}
